@@ -62,7 +62,12 @@ def main():
         if args.replay:
             with open(args.replay) as f:
                 doc = json.load(f)
-            mod.replay(ctx, harness.unhex(doc["case"]))
+            case = harness.unhex(doc["case"])
+            harness.debug_logging(isinstance(case, dict) and bool(case.get("_debug_logging")))
+            try:
+                mod.replay(ctx, case)
+            finally:
+                harness.debug_logging(False)
             acc = ctx.acc
             rc = 0
             for key in sorted(acc.known):
@@ -79,7 +84,12 @@ def main():
             with open(path) as f:
                 doc = json.load(f)
             before = set(ctx.acc.viol)
-            mod.replay(ctx, harness.unhex(doc["case"]))
+            case = harness.unhex(doc["case"])
+            harness.debug_logging(isinstance(case, dict) and bool(case.get("_debug_logging")))
+            try:
+                mod.replay(ctx, case)
+            finally:
+                harness.debug_logging(False)
             ctx.acc.cls("regression_replays")
             for key in set(ctx.acc.viol) - before:
                 ctx.acc.viol[key]["msg"] = "[regression replay %s] %s" % (os.path.basename(path), ctx.acc.viol[key]["msg"])
